@@ -182,10 +182,14 @@ def gen_constrained(rng):
     monos = [monos_scalar[1]] * n
   inc = [i for i in range(n) if monos[i] == 1]
   dec = [i for i in range(n) if monos[i] == -1]
-  mode = rng.choice(["plain", "mdom", "rdom", "both", "mdom", "rdom"])
+  mode = rng.choice(["plain", "mdom", "rdom", "both", "both", "mdom", "rdom"])
   mdom, rdom, used = [], [], set()
+  if mode == "both" and not wavg and monos_scalar is None and n >= 4:
+    monos = [1] * 4 + monos[4:]      # room for a monotonic-dominance pair and a range-dominance pair
+    inc = [i for i in range(n) if monos[i] == 1]
+    dec = [i for i in range(n) if monos[i] == -1]
   if mode in ("mdom", "both") and len(inc) >= 2:
-    k = rng.randint(2, min(len(inc), 4))
+    k = rng.randint(2, min(len(inc), 4 if mode == "mdom" else 2))
     sub = rng.sample(inc, k)
     mdom = [[b, a] for a, b in rand_dag(rng, sub, 2 * k)]  # (dominant, weak)
     used = set(x for p in mdom for x in p)
@@ -210,6 +214,12 @@ def gen_constrained(rng):
         a = tfimpl.dy(rng, -4, 4)
         lo[i], hi[i] = a, a + rng.choice([0.5, 1.0, 2.0, 3.0])
       rdom = [[b, a] for a, b in rand_dag(rng, sub, 2 * k)]
+  if mdom and rdom and rng.random() < 0.7:
+    # both dominance kinds configured: the monotonic-dominance inputs get bounds of DIFFERENT widths, so a projection
+    # that applied the range scalings to them as well would order the wrong quantities (seeded change C20-m4)
+    for j, i in enumerate(sorted(used)):
+      a = tfimpl.dy(rng, -2, 2)
+      lo[i], hi[i] = a, a + [4.0, 0.5, 2.0, 1.0][j % 4]
   norm = 1 if wavg else rng.choice([None, None, 1, 2])
   wclass = rng.choice(["random", "random", "random", "ties", "zeros", "allneg", "far", "onezero"])
   W = []
